@@ -24,6 +24,9 @@ def classify (p : Bytes) : String :=
   else if fixtureFiles.any (isDirOf p) then "dir"
   else "notfound"
 
+abbrev St := Unit
+def init : St := ()
+
 def rangeOp (c h : String) : String :=
   match unhex c, (if h = "none" then some none else (unhex h).map some) with
   | some cb, some hb =>
